@@ -238,7 +238,6 @@ CHECKS = {
 
 # Workload additions of session 4 (rounds 8-13 of seeded changes, a thorough sweep at new seeds); appended to the level text.
 ADDED = {
-    "C01": " Price feeds may quote a token only from some minute on.",
     "C02": " The price feed of the Aave mixes may also quote a token nobody holds, and only from some minute on (NaN before): what the "
            "strategy is shown for it must not depend on its later quotes.",
     "C03": " Option books also come on a dyadic price grid with levels at simple multiples of the mark, with price caps placed exactly on a "
